@@ -99,91 +99,324 @@ KNOWN_HANDLERS = {
 }
 
 
-def extract(repo):
-    g = {}
-    body = parse(repo, "mammoth/docx/body_xml.py")
-    handlers = find_assign(body, "handlers")
-    if not isinstance(handlers, ast.Dict):
-        raise ValueError("handlers is not a dict literal")
-    g["handlers"] = [(k.value, handler_name(v)) for k, v in zip(handlers.keys, handlers.values)]
-    for _, h in g["handlers"]:
-        if h not in KNOWN_HANDLERS:
-            raise ValueError("handler %r is not modelled" % h)
-    g["ignored"] = const_seq(find_assign(body, "_ignored_elements"), "_ignored_elements")
-    # browser-friendly image types: `if content_type in [...]` inside _read_image
-    ri = find_func(body, "_read_image")
-    lists = [n for n in ast.walk(ri) if isinstance(n, ast.Compare) and isinstance(n.ops[0], (ast.In, ast.NotIn))
-             and isinstance(n.comparators[0], (ast.List, ast.Tuple, ast.Set))]
-    if len(lists) == 1:
-        g["browserImageTypes"] = const_seq(lists[0].comparators[0], "browser image types")
-    else:
-        # the list may have been hoisted into a module-level constant: the single name tested with `in` / `not in`
+RUNTIME = r"""
+import inspect, json, sys
+sys.path.insert(0, %r)
+out = {}
+def attempt(name, f):
+    try:
+        out[name] = f()
+    except Exception as e:
+        out[name] = {"__error__": "%%s: %%s" %% (type(e).__name__, e)}
+
+def escape_table():
+    from mammoth.writers.html import _escape_html
+    esc = []
+    for cp in list(range(0, 0x300)) + [0x2028, 0x2029, 0xfeff, 0x1f600]:
+        if 0xd800 <= cp <= 0xdfff: continue
+        c = chr(cp)
+        e = _escape_html(c)
+        if e != c: esc.append([c, e])
+    return esc
+
+def token_rules():
+    from mammoth.styles.parser import tokeniser
+    def as_rules(v):
+        if isinstance(v, (list, tuple)) and v and all(isinstance(x, tuple) and len(x) == 2 and hasattr(x[1], "pattern") for x in v):
+            return [[t, r.pattern] for t, r in v]
+    rules = None
+    for cell in (tokeniser.tokenise.__closure__ or ()):
+        rules = rules or as_rules(cell.cell_contents)
+    for v in list(vars(tokeniser).values()):
+        rules = rules or as_rules(v)
+    if rules is None:
+        raise ValueError("tokeniser rules not found")
+    return rules
+
+def reachable(root, module_prefix="mammoth"):
+    # objects reachable from `root` through closures, referenced module globals, bound methods and instance attributes
+    seen, dicts, colls = set(), [], []
+    def walk(o, depth):
+        if id(o) in seen or depth > 10:
+            return
+        seen.add(id(o))
+        if isinstance(o, dict):
+            if o and all(isinstance(k, str) for k in o) and all(callable(v) for v in o.values()):
+                dicts.append(o)
+            return
+        if isinstance(o, (set, frozenset, list, tuple)):
+            if len(o) >= 3 and all(isinstance(k, str) for k in o):
+                colls.append(o)
+            return
+        if inspect.isfunction(o):
+            if not (o.__module__ or "").startswith(module_prefix):
+                return
+            for c in (o.__closure__ or ()):
+                try:
+                    walk(c.cell_contents, depth + 1)
+                except ValueError:
+                    pass
+            for name in o.__code__.co_names:
+                if name in o.__globals__:
+                    v = o.__globals__[name]
+                    if isinstance(v, (set, frozenset, list, tuple, dict)) or inspect.isfunction(v):
+                        walk(v, depth + 1)
+            for const in o.__code__.co_consts:
+                if inspect.iscode(const):
+                    pass
+        elif inspect.ismethod(o):
+            walk(o.__func__, depth + 1)
+            walk(o.__self__, depth + 1)
+        elif hasattr(o, "__dict__") and type(o).__module__.startswith(module_prefix):
+            for v in vars(o).values():
+                walk(v, depth + 1)
+    walk(root, 0)
+    return dicts, colls
+
+def handler_kind(fn):
+    name = getattr(fn, "__name__", None)
+    if name is None:
+        raise ValueError("handler without a name")
+    cells = []
+    for c in (getattr(fn, "__closure__", None) or ()):
+        try:
+            cells.append(c.cell_contents)
+        except ValueError:
+            pass
+    strs = [c for c in cells if isinstance(c, str)]
+    if name.startswith("note_reference") and len(strs) == 1:
+        return "note_reference:" + strs[0]
+    return name
+
+def reader_tables():
+    from mammoth.docx import body_xml
+    dicts, colls = reachable(body_xml.reader())
+    cands = [d for d in dicts if all(":" in k for k in d) and len(d) >= 10]
+    if not cands:
+        raise ValueError("no handler table reachable from body_xml.reader()")
+    handlers = max(cands, key=len)
+    ign = [c for c in colls if all(":" in k for k in c) and len(c) >= 5 and not (set(c) & set(handlers))]
+    if not ign:
+        raise ValueError("no ignored-element collection reachable from body_xml.reader()")
+    ignored = max(ign, key=len)
+    return {"handlers": [[k, handler_kind(v)] for k, v in handlers.items()], "ignored": sorted(ignored) if isinstance(ignored, (set, frozenset)) else list(ignored)}
+
+def find_global(module, pred, prefer=None):
+    if prefer is not None and prefer in vars(module) and pred(vars(module)[prefer]):
+        return vars(module)[prefer]
+    for v in vars(module).values():
+        if pred(v):
+            return v
+        if inspect.isclass(v) and getattr(v, "__module__", None) == module.__name__:
+            for w in vars(v).values():
+                if pred(w):
+                    return w
+    raise ValueError("not found in " + module.__name__)
+
+def image_extensions():
+    from mammoth.docx import content_types_xml as m
+    d = find_global(m, lambda v: isinstance(v, dict) and v.get("png") == "png" and all(isinstance(k, str) and isinstance(x, str) for k, x in v.items()), "_image_content_types")
+    return sorted([k, v] for k, v in d.items())
+
+def dingbat_table():
+    from mammoth.docx import dingbats as m
+    d = find_global(m, lambda v: isinstance(v, dict) and len(v) > 100 and all(isinstance(k, tuple) and len(k) == 2 for k in v), "dingbats")
+    return sorted([[k[0], k[1]], v] for k, v in d.items())
+
+def void_tags():
+    from mammoth.html import nodes as m
+    s = find_global(m, lambda v: isinstance(v, (set, frozenset, list, tuple)) and "br" in v and "img" in v and all(isinstance(x, str) for x in v), "_VOID_TAG_NAMES")
+    return sorted(s)
+
+def namespaces():
+    from mammoth.docx import office_xml as m
+    l = find_global(m, lambda v: isinstance(v, (list, tuple)) and len(v) > 5 and all(isinstance(x, tuple) and len(x) == 2 and all(isinstance(y, str) for y in x) for x in v) and any(x[0] == "w" for x in v), "_namespaces")
+    return [list(x) for x in l]
+
+attempt("escapeTable", escape_table)
+attempt("tokenRules", token_rules)
+attempt("reader", reader_tables)
+attempt("imageExtensions", image_extensions)
+attempt("dingbats", dingbat_table)
+attempt("voidTagNames", void_tags)
+attempt("namespaces", namespaces)
+print(json.dumps(out))
+"""
+
+TABLES = ["handlers", "ignored", "browserImageTypes", "instrRegexes", "symRegexes", "imageExtensions", "dingbats", "defaultStyleMapText",
+          "voidTagNames", "namespaces", "escapeTable", "tokenRules"]
+
+
+def all_str_constants(tree):
+    return [n.value for n in ast.walk(tree) if isinstance(n, ast.Constant) and isinstance(n.value, str)]
+
+
+def ast_tables(repo):
+    """every table read from the source text; a table whose shape is not understood maps to the exception"""
+    t = {}
+
+    def attempt(name, f):
+        try:
+            t[name] = f()
+        except Exception as e:  # noqa
+            t[name] = e
+    try:
+        body = parse(repo, "mammoth/docx/body_xml.py")
+    except Exception as e:  # noqa
+        body = None
+        for k in ("handlers", "ignored", "browserImageTypes", "instrRegexes", "symRegexes"):
+            t[k] = e
+
+    def handlers():
+        h = find_assign(body, "handlers")
+        if not isinstance(h, ast.Dict):
+            raise ValueError("handlers is not a dict literal")
+        return [(k.value, handler_name(v)) for k, v in zip(h.keys, h.values)]
+
+    def browser():
+        ri = find_func(body, "_read_image")
+        lists = [n for n in ast.walk(ri) if isinstance(n, ast.Compare) and isinstance(n.ops[0], (ast.In, ast.NotIn))
+                 and isinstance(n.comparators[0], (ast.List, ast.Tuple, ast.Set))]
+        if len(lists) == 1:
+            return const_seq(lists[0].comparators[0], "browser image types")
         names = [n.comparators[0].id for n in ast.walk(ri) if isinstance(n, ast.Compare) and isinstance(n.ops[0], (ast.In, ast.NotIn))
                  and isinstance(n.comparators[0], ast.Name)]
-        if len(names) != 1:
-            raise ValueError("_read_image: expected one `in [...]` test")
-        g["browserImageTypes"] = const_seq(find_assign(body, names[0]), names[0])
-    # instruction regexes
-    pit = find_func(body, "parse_instr_text")
-    regs = [n.args[0].value for n in ast.walk(pit)
-            if isinstance(n, ast.Call) and isinstance(n.func, ast.Attribute) and n.func.attr == "match"
-            and n.args and isinstance(n.args[0], ast.Constant)]
-    g["instrRegexes"] = regs
-    sym = find_func(body, "symbol")
-    g["symRegexes"] = [n.args[0].value for n in ast.walk(sym)
-                       if isinstance(n, ast.Call) and isinstance(n.func, ast.Attribute) and n.func.attr == "match"
-                       and n.args and isinstance(n.args[0], ast.Constant)]
+        if len(names) == 1:
+            return const_seq(find_assign(body, names[0]), names[0])
+        # anywhere in the module: the one literal collection whose members all look like image media types
+        cands = [const_seq(n, "x") for n in ast.walk(body) if isinstance(n, (ast.List, ast.Tuple, ast.Set)) and n.elts
+                 and all(isinstance(e, ast.Constant) and isinstance(e.value, str) and e.value.startswith("image/") for e in n.elts)]
+        if len(cands) == 1:
+            return cands[0]
+        raise ValueError("browser-friendly image types not found")
 
-    ct = parse(repo, "mammoth/docx/content_types_xml.py")
-    g["imageExtensions"] = sorted(ast.literal_eval(find_assign(ct, "_image_content_types")).items())
+    def regexes(func, must):
+        def f():
+            fn = find_func(body, func)
+            regs = [n.args[0].value for n in ast.walk(fn)
+                    if isinstance(n, ast.Call) and isinstance(n.func, ast.Attribute) and n.func.attr in ("match", "compile", "fullmatch", "search")
+                    and n.args and isinstance(n.args[0], ast.Constant) and isinstance(n.args[0].value, str)]
+            if not regs:
+                # hoisted to module level (re.compile) or passed through a name: the pattern constants of the module
+                regs = [c for c in all_str_constants(body) if any(m in c for m in must) and ("\\" in c or "^" in c)]
+            if not regs:
+                raise ValueError("no pattern found for " + func)
+            return regs
+        return f
+    if body is not None:
+        attempt("handlers", handlers)
+        attempt("ignored", lambda: const_seq(find_assign(body, "_ignored_elements"), "_ignored_elements"))
+        attempt("browserImageTypes", browser)
+        attempt("instrRegexes", regexes("parse_instr_text", ["HYPERLINK", "FORMCHECKBOX"]))
+        attempt("symRegexes", regexes("symbol", ["F0"]))
+    attempt("imageExtensions", lambda: sorted(ast.literal_eval(find_assign(parse(repo, "mammoth/docx/content_types_xml.py"), "_image_content_types")).items()))
+    attempt("dingbats", lambda: sorted(ast.literal_eval(find_assign(parse(repo, "mammoth/docx/dingbats.py"), "dingbats")).items()))
 
-    db = parse(repo, "mammoth/docx/dingbats.py")
-    g["dingbats"] = sorted(ast.literal_eval(find_assign(db, "dingbats")).items())
+    def default_map():
+        opts = parse(repo, "mammoth/options.py")
+        try:
+            dsm = find_assign(opts, "_default_style_map_result")
+            if isinstance(dsm, ast.Call) and dsm.args and isinstance(dsm.args[0], ast.Constant):
+                return dsm.args[0].value
+        except KeyError:
+            pass
+        # moved or renamed: the one string constant of the module that is a multi-line style map
+        cands = [c for c in all_str_constants(opts) if c.count("=>") >= 5 and "\n" in c]
+        if len(cands) == 1:
+            return cands[0]
+        raise ValueError("default style map text not found in options.py")
+    attempt("defaultStyleMapText", default_map)
+    attempt("voidTagNames", lambda: sorted(const_seq(find_assign(parse(repo, "mammoth/html/nodes.py"), "_VOID_TAG_NAMES"), "_VOID_TAG_NAMES")))
+    attempt("namespaces", lambda: [tuple(x) for x in ast.literal_eval(find_assign(parse(repo, "mammoth/docx/office_xml.py"), "_namespaces"))])
+    return t
 
-    opts = parse(repo, "mammoth/options.py")
-    dsm = find_assign(opts, "_default_style_map_result")
-    if not (isinstance(dsm, ast.Call) and dsm.args and isinstance(dsm.args[0], ast.Constant)):
-        raise ValueError("_default_style_map_result is not _read_style_map(<literal>)")
-    g["defaultStyleMapText"] = dsm.args[0].value
 
-    nodes = parse(repo, "mammoth/html/nodes.py")
-    void = find_assign(nodes, "_VOID_TAG_NAMES")
-    g["voidTagNames"] = sorted(const_seq(void, "_VOID_TAG_NAMES"))
-
-    ox = parse(repo, "mammoth/docx/office_xml.py")
-    g["namespaces"] = [tuple(x) for x in ast.literal_eval(find_assign(ox, "_namespaces"))]
-
-    # behavioural part, in a fresh interpreter
-    code = r"""
-import json, sys
-sys.path.insert(0, %r)
-from mammoth.writers.html import _escape_html
-from mammoth.styles.parser import tokeniser
-esc = []
-for cp in list(range(0, 0x300)) + [0x2028, 0x2029, 0xfeff, 0x1f600]:
-    if 0xd800 <= cp <= 0xdfff: continue
-    c = chr(cp)
-    e = _escape_html(c)
-    if e != c: esc.append([c, e])
-rules = None
-def as_rules(v):
-    if isinstance(v, (list, tuple)) and v and all(isinstance(x, tuple) and len(x) == 2 and hasattr(x[1], "pattern") for x in v):
-        return [[t, r.pattern] for t, r in v]
-for cell in (tokeniser.tokenise.__closure__ or ()):
-    rules = rules or as_rules(cell.cell_contents)
-for v in list(vars(tokeniser).values()):      # or hoisted to module level
-    rules = rules or as_rules(v)
-print(json.dumps({"esc": esc, "rules": rules}))
-""" % repo
-    p = subprocess.run([sys.executable, "-c", code], capture_output=True, text=True, timeout=120)
+def runtime_tables(repo):
+    p = subprocess.run([sys.executable, "-c", RUNTIME % repo], capture_output=True, text=True, timeout=180)
     if p.returncode != 0:
-        raise RuntimeError("behavioural extraction failed: " + p.stderr[-400:])
-    beh = json.loads(p.stdout)
-    if beh["rules"] is None:
-        raise ValueError("tokeniser rules not found in closure")
-    g["escapeTable"] = [(a, b) for a, b in beh["esc"]]
-    g["tokenRules"] = [(a, b) for a, b in beh["rules"]]
+        return {"__all__": RuntimeError("runtime extraction failed: " + p.stderr[-400:])}
+    raw = json.loads(p.stdout)
+    t = {}
+    for k, v in raw.items():
+        if isinstance(v, dict) and "__error__" in v:
+            t[k] = ValueError(v["__error__"])
+        else:
+            t[k] = v
+    if not isinstance(t.get("reader"), Exception) and "reader" in t:
+        t["handlers"] = [tuple(x) for x in t["reader"]["handlers"]]
+        t["ignored"] = t["reader"]["ignored"]
+    elif "reader" in t:
+        t["handlers"] = t["ignored"] = t["reader"]
+    t.pop("reader", None)
+    if "imageExtensions" in t and not isinstance(t["imageExtensions"], Exception):
+        t["imageExtensions"] = [tuple(x) for x in t["imageExtensions"]]
+    if "dingbats" in t and not isinstance(t["dingbats"], Exception):
+        t["dingbats"] = [((k[0], k[1]), v) for k, v in t["dingbats"]]
+    if "namespaces" in t and not isinstance(t["namespaces"], Exception):
+        t["namespaces"] = [tuple(x) for x in t["namespaces"]]
+    for k in ("escapeTable", "tokenRules"):
+        if k in t and not isinstance(t[k], Exception):
+            t[k] = [tuple(x) for x in t[k]]
+    return t
+
+
+# which source is authoritative for each table: what the running code holds (runtime) where an object can be inspected,
+# the source text where only text exists; the other one is the fallback, the pinned value (gen/last_good.json) the last resort
+ORDER = {
+    "handlers": ("runtime", "ast"), "ignored": ("runtime", "ast"), "imageExtensions": ("runtime", "ast"), "dingbats": ("runtime", "ast"),
+    "voidTagNames": ("runtime", "ast"), "namespaces": ("runtime", "ast"), "escapeTable": ("runtime",), "tokenRules": ("runtime",),
+    "browserImageTypes": ("ast",), "instrRegexes": ("ast",), "symRegexes": ("ast",), "defaultStyleMapText": ("ast",),
+}
+
+
+def valid(table, v):
+    if table == "handlers":
+        return bool(v) and all(h in KNOWN_HANDLERS for _k, h in v)
+    return v is not None and (len(v) > 0 or table in ("ignored",))
+
+
+def extract(repo, status=None):
+    status = {} if status is None else status
+    src = {"ast": ast_tables(repo), "runtime": runtime_tables(repo)}
+    last_path = os.path.join(os.path.dirname(os.path.abspath(__file__)), "last_good.json")
+    last = json.load(open(last_path)) if os.path.exists(last_path) else {}
+    g = {}
+    for t in TABLES:
+        why = []
+        for how in ORDER[t]:
+            v = src[how].get(t, src[how].get("__all__", KeyError("not produced")))
+            if isinstance(v, Exception):
+                why.append("%s: %s" % (how, v))
+                continue
+            if t in ("handlers",):
+                # a dict: keys are unique, so the order carries no meaning; sorted for a stable Generated.lean
+                v = sorted(dict((k, h) for k, h in v).items())
+            if not valid(t, v):
+                why.append("%s: value not understood (%r)" % (how, [h for _k, h in v if h not in KNOWN_HANDLERS][:3] if t == "handlers" else v))
+                continue
+            g[t] = v
+            status[t] = how
+            break
+        else:
+            if t in last:
+                g[t] = from_json(t, last[t])
+                status[t] = "pinned"
+                status.setdefault("__why__", {})[t] = why
+            else:
+                raise ValueError("table %s cannot be extracted: %s" % (t, "; ".join(why)))
     return g
+
+
+def to_json(g):
+    return {k: v for k, v in g.items()}
+
+
+def from_json(t, v):
+    if t in ("handlers", "imageExtensions", "namespaces", "escapeTable", "tokenRules"):
+        return [tuple(x) for x in v]
+    if t == "dingbats":
+        return [((k[0], k[1]), val) for k, val in v]
+    return v
 
 
 FONT_VARS = {}
@@ -234,16 +467,30 @@ def render(g):
     return "\n".join(L) + "\n"
 
 
-def main(repo, out):
-    g = extract(repo)
+def main(repo, out, status_path=None):
+    status = {}
+    g = extract(repo, status)
     text = render(g)
     old = open(out, encoding="utf-8").read() if os.path.exists(out) else None
-    pins = os.path.join(os.path.dirname(os.path.abspath(__file__)), "pins.json")
+    if status_path:
+        with open(status_path, "w") as f:
+            json.dump(status, f, indent=1)
     if old != text:
         with open(out, "w", encoding="utf-8") as f:
             f.write(text)
         return True
     return False
+
+
+def write_last_good(repo):
+    status = {}
+    g = extract(repo, status)
+    if any(v == "pinned" for v in status.values() if isinstance(v, str)):
+        raise ValueError("cannot pin: some tables were not extracted: %r" % status)
+    path = os.path.join(os.path.dirname(os.path.abspath(__file__)), "last_good.json")
+    with open(path, "w", encoding="utf-8") as f:
+        json.dump(g, f, indent=0, ensure_ascii=False, sort_keys=True)
+    return status
 
 
 if __name__ == "__main__":
